@@ -978,3 +978,66 @@ Proof.
   - repeat constructor; cbn; intros []; assumption.
   - intros H. apply veqb_veq in H. vm_compute in H. discriminate.
 Qed.
+
+(* ------------------------------------------------------------------ *)
+(* Regularised objective: grad = mean example gradient + regulariser gradient.  The cohort
+   gradient then contains the regulariser gradient exactly once. *)
+Lemma wmean_add_const d cl r : wf_clients d cl -> length r = d -> 0 < wtot cl ->
+  wmean_batch d (map (fun c => (fst c, vadd (snd c) r)) cl) =v= vadd (wmean_batch d cl) r.
+Proof.
+  intros Hwf Lr Hpos.
+  set (cl' := map (fun c : Q * list Q => (fst c, vadd (snd c) r)) cl).
+  assert (Hwf' : wf_clients d cl').
+  { unfold wf_clients, cl'. apply Forall_map. eapply Forall_impl; [|exact Hwf]. intros c Hc. cbn [snd]. apply vadd_length; assumption. }
+  assert (Et : wtot cl' = wtot cl) by (unfold wtot, cl'; rewrite map_map; reflexivity).
+  assert (Hpos' : 0 < wtot cl') by (rewrite Et; exact Hpos).
+  apply veq_nth_iff. rewrite (wmean_batch_length d cl' Hwf').
+  split; [symmetry; apply vadd_length; [apply wmean_batch_length; exact Hwf|exact Lr]|].
+  intros i Hi. rewrite (proj2 (wmean_def d cl' Hwf' Hpos') i Hi).
+  rewrite vnth_vadd by (rewrite ?wmean_batch_length by exact Hwf; lia).
+  rewrite (proj2 (wmean_def d cl Hwf Hpos) i Hi), Et.
+  assert (E : wcoord i cl' == wcoord i cl + vnth i r * wtot cl).
+  { unfold wcoord, wtot, cl'. clear Hwf' Et Hpos' Hpos. induction Hwf as [|c cl Hc _ IH]; cbn [map qsum fst snd]; [ring|].
+    rewrite IH. rewrite vnth_vadd by lia. ring. }
+  rewrite E. field. lra.
+Qed.
+
+Section RegControlVariate.
+Context {K U B : Type}.
+Variable g0 : list Q -> B -> U -> list Q.      (* gradient of the mean example loss of a batch *)
+Variable rg : list Q -> list Q.                (* gradient of the regulariser *)
+Variable split : K -> K * U.
+Hypothesis g0_length : forall p b u, length (g0 p b u) = length p.
+Hypothesis rg_length : forall p, length (rg p) = length p.
+Notation mclient := (@mclient K B).
+Definition reg_grad : list Q -> B -> U -> list Q := fun p b u => vadd (g0 p b u) (rg p).
+
+Lemma reg_grad_length p b u : length (reg_grad p b u) = length p.
+Proof. unfold reg_grad. apply vadd_length; [apply g0_length|apply rg_length]. Qed.
+
+Lemma chain_reg p bns : forall k,
+  chain reg_grad split p k bns = map (fun c => (fst c, vadd (snd c) (rg p))) (chain g0 split p k bns).
+Proof. induction bns as [|bn r IH]; intros k; cbn [chain map fst snd]; [reflexivity|]. rewrite IH. reflexivity. Qed.
+
+Lemma cohort_reg p (clients : list mclient) :
+  cohort_batch_grads reg_grad split p clients =
+  map (fun c => (fst c, vadd (snd c) (rg p))) (cohort_batch_grads g0 split p clients).
+Proof.
+  unfold cohort_batch_grads. rewrite concat_map, map_map. f_equal. apply map_ext. intros mc. apply chain_reg.
+Qed.
+
+(* server_grads / control variate of the regularised objective = cohort mean of the example
+   gradients + the regulariser gradient, once *)
+Lemma sg_q_regularized p (clients : list mclient) : 0 < wtot (cohort_batch_grads g0 split p clients) ->
+  sg_q reg_grad split p clients =v=
+  vadd (wmean_batch (length p) (cohort_batch_grads g0 split p clients)) (rg p).
+Proof.
+  intros Hpos. rewrite (sg_q_is_cohort_gradient reg_grad split reg_grad_length p clients), cohort_reg.
+  apply wmean_add_const; [apply (cohort_wf g0 split g0_length)|apply rg_length|exact Hpos].
+Qed.
+End RegControlVariate.
+
+(* the evaluated gradient is of that form: ls_grad_reg reg == batch_grad + 2*reg*w *)
+Lemma ls_grad_reg_is_reg_grad reg p b u :
+  ls_grad_reg reg p b u =v= reg_grad (fun w batch nu => batch_grad w batch nu) (fun w => vscale (2 * reg) w) p b u.
+Proof. unfold ls_grad_reg, reg_grad. apply vred_veq. Qed.
